@@ -1,1 +1,399 @@
-(* Proofs/GenC08Proofs.v - placeholder *)
+(** Proofs/GenC08Proofs.v — Tie B for C08 / C09: the definitions GENERATED from the current
+    pypyr/formatting.py (Gen/GenC08.v, rewritten before every build by tools/py2coq_c08.py)
+    are proved equal, for all inputs, to the hand-written model the C08 / C09 theorems are
+    about (Model/Format.v): RecursionSpec = [mk_rspec]; the loop body of _format_keep_type =
+    [field_entry] and the literal rule of [build]; _format_keep_type = [keep_type];
+    _get_formatted_iterable, instantiated with how Context builds the formatter, = [iter_body]
+    (one step of [fmt_iter]); closed on fuel it is [fmt_iter] itself; vformat = [format_value].
+
+    The proofs do not mention the generated terms literally (fresh-name suffixes, the order of
+    let-bindings, joined or duplicated continuations may change with harmless edits of the
+    source): they destruct the inputs and the results of the abstract calls and compute. *)
+From PV Require Import Format FormatProofs FormatSrc GenC08.
+From Coq Require Import Lia.
+Open Scope string_scope.
+
+(** * small facts *)
+Lemma bind_ret {A} (m : res A) : bind m (fun x => Ok x) = m.
+Proof. destruct m; reflexivity. Qed.
+
+Lemma mapM_ext {A B} (f g : A -> res B) l : (forall x, f x = g x) -> mapM f l = mapM g l.
+Proof. intros H. induction l as [|x l IH]; simpl; [reflexivity|]. now rewrite H, IH. Qed.
+
+Lemma bind_mapM_ext {A B C} (f g : A -> res B) l (k : list B -> res C) :
+  (forall x, f x = g x) -> bind (mapM f l) k = bind (mapM g l) k.
+Proof. intros H. now rewrite (mapM_ext f g l H). Qed.
+
+Lemma bind_mapM_ext2 {A B C} (f g : A -> res B) l (k1 k2 : list B -> res C) :
+  (forall x, f x = g x) -> (forall ys, k1 ys = k2 ys) -> bind (mapM f l) k1 = bind (mapM g l) k2.
+Proof. intros H K. rewrite (mapM_ext f g l H). destruct (mapM g l); simpl; auto. Qed.
+
+(** the innermost scrutinee of a chain of binds / ifs / matches *)
+Ltac inner m :=
+  lazymatch m with
+  | bind ?m' _ => inner m'
+  | (if ?c then _ else _) => inner c
+  | (match ?x with _ => _ end) => inner x
+  | _ => m
+  end.
+
+Ltac head t := lazymatch t with ?f _ => head f | _ => t end.
+
+Ltac crunch1 :=
+  match goal with
+  | |- ?L = _ =>
+      let m := inner L in
+      let h := head m in
+      tryif is_constructor h then fail else (tryif is_var m then destruct m else destruct m eqn:?)
+  end.
+
+(** compute, but keep the model's big functions folded *)
+Ltac hide_cbn :=
+  cbn -[keep_type gen_format_keep_type vformat_std get_field parse format_field
+        convert_field eval_pystring json_dumps set_of_list rebuild_dict].
+
+Ltac crunch := repeat (hide_cbn; try reflexivity; crunch1).
+
+(** * RecursionSpec *)
+Lemma gen_RecursionSpec_is_model spec :
+  gen_RecursionSpec spec = src_of_rspec (mk_rspec spec) false.
+Proof.
+  destruct spec as [|a [|b rest]]; try reflexivity;
+    destruct a as [[] [] [] [] [] [] [] []]; try reflexivity;
+    destruct b as [[] [] [] [] [] [] [] []]; reflexivity.
+Qed.
+
+(** the flags of a parsed spec, read off the generated constructor *)
+Lemma gen_RecursionSpec_flags spec :
+  rs_has_recursed (gen_RecursionSpec spec) = false
+  /\ rs_is_recursive (gen_RecursionSpec spec) = r_recursive (mk_rspec spec)
+  /\ rs_is_flat (gen_RecursionSpec spec) = r_flat (mk_rspec spec)
+  /\ rs_is_set (gen_RecursionSpec spec) = (r_recursive (mk_rspec spec) || r_flat (mk_rspec spec))
+  /\ rs_format_spec (gen_RecursionSpec spec) = r_spec (mk_rspec spec).
+Proof. rewrite gen_RecursionSpec_is_model. repeat split. Qed.
+
+(** * numbered fields: with no positional arguments they raise inside get_field *)
+Lemma is_digit_not_sep c :
+  is_digit c = true -> (Ascii.eqb c "."%char || Ascii.eqb c "["%char) = false.
+Proof. destruct c as [[] [] [] [] [] [] [] []]; simpl; intros H; try reflexivity; discriminate. Qed.
+
+Lemma split_first_digits s : all_digits s = true -> split_first s = (s, "").
+Proof.
+  induction s as [|c s IH]; simpl; intros H; [reflexivity|].
+  apply andb_true_iff in H as [Hc Hs]. rewrite (is_digit_not_sep c Hc), (IH Hs). reflexivity.
+Qed.
+
+Lemma get_field_digits ctx name :
+  isdigit name = true -> get_field ctx name = Err "TypeError" "'NoneType' object is not subscriptable".
+Proof.
+  intros H. unfold get_field.
+  assert (D : all_digits name = true) by (destruct name; [discriminate|exact H]).
+  rewrite (split_first_digits name D). now rewrite H.
+Qed.
+
+Lemma get_field_auto0 ctx :
+  get_field ctx (auto_str (AutoAt 0)) = Err "TypeError" "'NoneType' object is not subscriptable".
+Proof. reflexivity. Qed.
+
+(** * [''.join] of the rendered entries *)
+Fixpoint concat_strs (l : list string) : string :=
+  match l with [] => "" | x :: r => x ++ concat_strs r end.
+
+Lemma join_empty_sep l : join "" l = concat_strs l.
+Proof.
+  induction l as [|x [|y r] IH]; simpl; [reflexivity| now rewrite append_nil_r |].
+  simpl in IH. now rewrite IH.
+Qed.
+
+Lemma strs_of_vals_VStr ss : strs_of_vals (map VStr ss) = Ok ss.
+Proof. induction ss as [|s ss IH]; simpl; [reflexivity|]. now rewrite IH. Qed.
+
+Fixpoint render_list (es : list entry) : res (list string) :=
+  match es with
+  | [] => Ok []
+  | ELit l :: r => let* rest := render_list r in Ok (l :: rest)
+  | EObj obj rs _ :: r =>
+      let* out := format_field obj (r_spec rs) in
+      let* rest := render_list r in Ok (out :: rest)
+  end.
+
+Lemma render_render_list es : render es = (let* ss := render_list es in Ok (concat_strs ss)).
+Proof.
+  induction es as [|[l|obj rs b] es IH]; simpl; [reflexivity| |].
+  - rewrite IH. destruct (render_list es); reflexivity.
+  - destruct (format_field obj (r_spec rs)); simpl; try reflexivity.
+    rewrite IH. destruct (render_list es); reflexivity.
+Qed.
+
+(** whatever the generated element function looks like, if it renders an encoded entry as
+    the model does, joining the results is [render] *)
+Lemma join_is_render (F : src_entry -> res val) es :
+  (forall e, F (enc_entry e) =
+             match e with
+             | ELit l => Ok (VStr l)
+             | EObj obj rs _ => let* s := format_field obj (r_spec rs) in Ok (VStr s)
+             end) ->
+  (let* ys := mapM F (map enc_entry es) in let* j := str_join_vals "" ys in Ok (VStr j))
+  = (let* out := render es in Ok (VStr out)).
+Proof.
+  intros H. rewrite render_render_list.
+  assert (M : mapM F (map enc_entry es) = (let* ss := render_list es in Ok (map VStr ss))).
+  { induction es as [|e es IH]; simpl; [reflexivity|]. rewrite H, IH.
+    destruct e as [l|obj rs b]; simpl.
+    - destruct (render_list es); reflexivity.
+    - destruct (format_field obj (r_spec rs)); simpl; try reflexivity.
+      destruct (render_list es); reflexivity. }
+  rewrite M. destruct (render_list es) as [ss| |]; simpl; try reflexivity.
+  unfold str_join_vals. rewrite strs_of_vals_VStr. simpl. now rewrite join_empty_sep.
+Qed.
+
+(** * the model is extensional in the nested formatting (used to close the knot) *)
+Section Ext.
+  Variable ctx : dict.
+  Variables rec1 rec2 : val -> bool -> res val.
+  Hypothesis Hrec : forall v r, rec1 v r = rec2 v r.
+
+  Lemma field_entry_ext is_rec fld : field_entry ctx rec1 is_rec fld = field_entry ctx rec2 is_rec fld.
+  Proof.
+    destruct fld as [[name spec] conv]. unfold field_entry.
+    destruct (lookup_field ctx name); cbn [bind]; try reflexivity.
+    destruct (vformat_std ctx 2 spec); cbn [bind]; try reflexivity.
+    cbv zeta. now rewrite Hrec.
+  Qed.
+
+  Lemma build_ext is_rec items tl : build ctx rec1 is_rec items tl = build ctx rec2 is_rec items tl.
+  Proof.
+    induction items as [|[lit fo] items IH]; simpl; [reflexivity|].
+    rewrite IH. destruct fo as [fld|]; [now rewrite field_entry_ext|reflexivity].
+  Qed.
+
+  Lemma finish_ext es : finish rec1 es = finish rec2 es.
+  Proof. destruct es as [|[l|obj rs b] [|e2 es]]; simpl; try reflexivity. now rewrite Hrec. Qed.
+
+  Lemma keep_type_ext s is_rec : keep_type ctx rec1 s is_rec = keep_type ctx rec2 s is_rec.
+  Proof.
+    unfold keep_type. destruct (parse s) as [items tl]. unfold keep_items. rewrite build_ext.
+    destruct (build ctx rec2 is_rec items tl); simpl; try reflexivity. apply finish_ext.
+  Qed.
+
+  Lemma iter_body_ext v r : iter_body ctx rec1 v r = iter_body ctx rec2 v r.
+  Proof.
+    destruct v; simpl; try reflexivity.
+    - apply keep_type_ext.
+    - apply bind_mapM_ext. intros x. apply Hrec.
+    - apply bind_mapM_ext. intros x. apply Hrec.
+    - apply bind_mapM_ext. intros x. apply Hrec.
+    - apply bind_mapM_ext. intros [k x]. simpl. now rewrite !Hrec.
+    - now rewrite Hrec.
+  Qed.
+End Ext.
+
+(** * _format_keep_type *)
+Section Tie.
+  Variable ctx : dict.
+  Variable rec : val -> bool -> res val.
+
+  Definition lit_entries (lit : string) : list entry :=
+    match lit with EmptyString => [] | _ => [ELit lit] end.
+
+  (** the generated loop body on one parse item, in the only reachable numbering state *)
+  Lemma body_is_model is_rec acc lit fo :
+    gen_format_keep_type_body (src_get_field ctx) (src_vformat ctx) convert_field rec
+      2 is_rec (AutoAt 0, map enc_entry acc) (lit, fo)
+    = (let* mid := match fo with
+                   | None => Ok []
+                   | Some fld => let* e := field_entry ctx rec is_rec fld in Ok [e]
+                   end in
+       Ok (AutoAt 0, map enc_entry (acc ++ lit_entries lit ++ mid)%list)).
+  Proof.
+    unfold gen_format_keep_type_body.
+    destruct fo as [[[name spec] conv]|].
+    2: { destruct lit; cbn; rewrite ?map_app, ?app_nil_r; reflexivity. }
+    unfold field_entry, lookup_field, src_get_field, src_vformat.
+    change (Z.to_nat (2 - 1 + 1)) with 2%nat.
+    destruct name as [|c name].
+    - (* '{}' : auto-numbered *)
+      cbn [String.eqb auto_is_false]. rewrite get_field_auto0. destruct lit; reflexivity.
+    - cbn [String.eqb].
+      destruct (isdigit (String c name)) eqn:D.
+      + (* '{0}' : numbered *)
+        cbn [auto_truth Z.eqb negb]. rewrite (get_field_digits ctx _ D). destruct lit; reflexivity.
+      + destruct (get_field ctx (String c name)) as [obj| |]; [|destruct lit; reflexivity..].
+        cbn [bind]. destruct (vformat_std ctx 2 spec) as [spec'| |]; [|destruct lit; reflexivity..].
+        cbn [bind]. rewrite gen_RecursionSpec_is_model.
+        destruct (mk_rspec spec') as [r f sp].
+        destruct r, f, is_rec; cbn [src_of_rspec rs_is_recursive rs_is_flat r_recursive r_flat orb andb negb bind];
+          try (destruct (rec obj true) as [obj'| |]; [|destruct lit; reflexivity..]; cbn [bind]);
+          (match goal with |- context [convert_field ?o conv] =>
+             destruct (convert_field o conv); [|destruct lit; reflexivity..] end);
+          destruct lit; cbn; rewrite ?map_app; cbn; rewrite <- ?app_assoc; reflexivity.
+  Qed.
+
+  Lemma loop_is_model is_rec items tl : forall acc,
+    for_items items tl
+      (gen_format_keep_type_body (src_get_field ctx) (src_vformat ctx) convert_field rec 2 is_rec)
+      (AutoAt 0, map enc_entry acc)
+    = (let* es := build ctx rec is_rec items tl in Ok (AutoAt 0, map enc_entry (acc ++ es)%list)).
+  Proof.
+    induction items as [|[lit fo] items IH]; intros acc; cbn [for_items build].
+    - destruct tl; cbn; rewrite ?app_nil_r; reflexivity.
+    - rewrite body_is_model.
+      destruct (match fo with
+                | None => Ok []
+                | Some fld => let* e := field_entry ctx rec is_rec fld in Ok [e]
+                end) as [mid| |]; cbn [bind]; try reflexivity.
+      rewrite IH. destruct (build ctx rec is_rec items tl) as [es| |]; cbn [bind]; try reflexivity.
+      unfold lit_entries. rewrite <- !app_assoc. reflexivity.
+  Qed.
+
+  Theorem keep_type_is_model s is_rec :
+    gen_format_keep_type parse (src_get_field ctx) (src_vformat ctx) convert_field format_field rec
+      s gen_FORMAT_SPEC_RECURSION_DEPTH (AutoAt 0) is_rec
+    = keep_type ctx rec s is_rec.
+  Proof.
+    unfold gen_format_keep_type, gen_FORMAT_SPEC_RECURSION_DEPTH, keep_type, keep_items, for_parse.
+    destruct (parse s) as [items tl]. cbn [Z.ltb Z.compare fst snd].
+    pose proof (loop_is_model is_rec items tl []) as L. cbn [map app] in L. rewrite L. clear L.
+    destruct (build ctx rec is_rec items tl) as [es| |]; cbn [bind]; try reflexivity.
+    rewrite map_length.
+    destruct es as [|e [|e2 es]].
+    - reflexivity.
+    - destruct e as [l|obj [r f sp] recursed]; [reflexivity|].
+      destruct recursed, r, f, sp; cbn;
+        try (destruct (rec obj _); cbn; try reflexivity);
+        try (match goal with |- context [format_field ?o ?sp] => destruct (format_field o sp) end);
+        reflexivity.
+    - change (Nat.eqb (List.length (e :: e2 :: es)) 1) with false. cbv iota.
+      rewrite (finish_many rec (e :: e2 :: es)) by (simpl; lia).
+      apply join_is_render. intros [l|obj rs b]; reflexivity.
+  Qed.
+End Tie.
+
+(** * _get_formatted_iterable, with the formatter as Context builds it *)
+Section Dispatch.
+  Variable ctx : dict.
+  Variable rec : val -> bool -> res val.
+
+  Theorem iter_is_model v is_rec :
+    gen_get_formatted_iterable gen_context_passthrough_types gen_context_special_types
+      parse (src_get_field ctx) (src_vformat ctx) convert_field format_field
+      (src_special_value ctx rec) rec v is_rec
+    = iter_body ctx rec v is_rec.
+  Proof.
+    unfold gen_get_formatted_iterable.
+    destruct v; hide_cbn;
+      first [ reflexivity
+            | rewrite keep_type_is_model; crunch
+            | apply bind_mapM_ext2; [intros x; try (destruct x as [? ?]); crunch | intros ys; crunch]
+            | crunch ].
+  Qed.
+
+  (** vformat: one call of the dispatch, not recursive *)
+  Theorem vformat_is_model v :
+    gen_vformat gen_context_passthrough_types gen_context_special_types
+      parse (src_get_field ctx) (src_vformat ctx) convert_field format_field
+      (src_special_value ctx rec) rec v
+    = iter_body ctx rec v false.
+  Proof.
+    unfold gen_vformat. rewrite iter_is_model. destruct (iter_body ctx rec v false); reflexivity.
+  Qed.
+End Dispatch.
+
+(** * the special tags (pypyr/dsl.py): what [prim_get_value] was instantiated with is the
+    generated [get_value] of PyString / SicString / Jsonify, with [context.get_eval_string] the
+    model's evaluator of the paired expression, [context.get_formatted_value v] = [rec v false]
+    (vformat's default) and [json.dumps] the model's *)
+Theorem special_value_is_source ctx rec v :
+  src_special_value ctx rec v =
+  match v with
+  | VPy src e => gen_PyString_get_value (fun _ => eval_py (S (pyexpr_size e)) ctx e) src
+  | VSic s => gen_SicString_get_value s
+  | VJsonify x =>
+      gen_Jsonify_get_value (fun y => rec y false) (fun y => res_of_opt (json_dumps y)) x
+  | _ => Unsup
+  end.
+Proof.
+  destruct v; try reflexivity;
+    unfold gen_PyString_get_value, gen_SicString_get_value, gen_Jsonify_get_value;
+    cbn [src_special_value]; first [ destruct src; reflexivity | crunch ].
+Qed.
+
+(** * the knot: the generated dispatch closed on fuel is the model's [fmt_iter] *)
+Fixpoint gen_fmt_iter (ctx : dict) (fuel : nat) (v : val) (is_rec : bool) {struct fuel} : res val :=
+  match fuel with
+  | O => Unsup
+  | S f =>
+      gen_get_formatted_iterable gen_context_passthrough_types gen_context_special_types
+        parse (src_get_field ctx) (src_vformat ctx) convert_field format_field
+        (src_special_value ctx (gen_fmt_iter ctx f)) (gen_fmt_iter ctx f) v is_rec
+  end.
+
+Theorem gen_fmt_iter_is_model ctx fuel : forall v is_rec,
+  gen_fmt_iter ctx fuel v is_rec = fmt_iter ctx fuel v is_rec.
+Proof.
+  induction fuel as [|f IH]; intros v r; [reflexivity|].
+  cbn [gen_fmt_iter fmt_iter]. rewrite iter_is_model. apply iter_body_ext. exact IH.
+Qed.
+
+(** the model's [fmt_iter] satisfies the recursion equation of the source *)
+Theorem fmt_iter_unfolds_to_source ctx f v is_rec :
+  fmt_iter ctx (S f) v is_rec
+  = gen_get_formatted_iterable gen_context_passthrough_types gen_context_special_types
+      parse (src_get_field ctx) (src_vformat ctx) convert_field format_field
+      (src_special_value ctx (fmt_iter ctx f)) (fmt_iter ctx f) v is_rec.
+Proof. symmetry. apply iter_is_model. Qed.
+
+(** [Context.get_formatted_value(v)] = [formatter.vformat(v, None, context)] *)
+Theorem format_value_is_vformat ctx f v :
+  format_value (S f) ctx v
+  = gen_vformat gen_context_passthrough_types gen_context_special_types
+      parse (src_get_field ctx) (src_vformat ctx) convert_field format_field
+      (src_special_value ctx (fmt_iter ctx f)) (fmt_iter ctx f) v.
+Proof. symmetry. apply vformat_is_model. Qed.
+
+(** how Context constructs and calls the formatter — what [src_get_field] / [src_vformat] /
+    the dispatch on special tags assume *)
+Theorem context_formatter_is_model :
+  gen_formatter_attrs = ["passthrough_types"; "special_types"]
+  /\ gen_context_passthrough_types = None
+  /\ gen_context_special_types = Some ["SpecialTagDirective"]
+  /\ gen_context_get_formatted_value_call = mk_src_ambient true true
+  /\ gen_context_get_formatted_call = mk_src_ambient true true
+  /\ gen_context_get_formatted_as_type_call = mk_src_ambient true true
+  /\ gen_context_iter_formatted_strings_call = mk_src_ambient true true.
+Proof. repeat split. Qed.
+
+(** * shape preservation read off the generated dispatch (C09) *)
+Section Shape.
+  Variable ctx : dict.
+  Variable rec : val -> bool -> res val.
+  Notation gen_iter :=
+    (gen_get_formatted_iterable gen_context_passthrough_types gen_context_special_types
+       parse (src_get_field ctx) (src_vformat ctx) convert_field format_field
+       (src_special_value ctx rec) rec).
+
+  Theorem gen_iter_leaf v r : is_leaf v = true -> gen_iter v r = Ok v.
+  Proof. intros H. rewrite iter_is_model. destruct v; try discriminate; reflexivity. Qed.
+
+  Theorem gen_iter_list l r :
+    gen_iter (VList l) r = (let* l' := mapM (fun x => rec x r) l in Ok (VList l')).
+  Proof. now rewrite iter_is_model. Qed.
+
+  Theorem gen_iter_tuple l r :
+    gen_iter (VTuple l) r = (let* l' := mapM (fun x => rec x r) l in Ok (VTuple l')).
+  Proof. now rewrite iter_is_model. Qed.
+
+  Theorem gen_iter_set l r :
+    gen_iter (VSet l) r
+    = (let* l' := mapM (fun x => rec x r) l in
+       let* s := res_of_opt (set_of_list l') in Ok (VSet s)).
+  Proof. now rewrite iter_is_model. Qed.
+
+  (** keys AND values, pairwise, in order *)
+  Theorem gen_iter_dict l r :
+    gen_iter (VDict l) r
+    = (let* l' := mapM (fun kv => let* k := rec (fst kv) r in
+                                  let* x := rec (snd kv) r in Ok (k, x)) l in
+       Ok (VDict (rebuild_dict l'))).
+  Proof. now rewrite iter_is_model. Qed.
+End Shape.
